@@ -292,9 +292,10 @@ func (config *Config) GetKey(keyName string) (*KeyConfig, error) {
 	if !ok {
 		return nil, fmt.Errorf("Key \"%s\" not found in configuration", keyName)
 	} else if keyConf.Alias != "" {
-		keyConf, ok = config.Keys[keyConf.Alias]
+		alias := keyConf.Alias
+		keyConf, ok = config.Keys[alias]
 		if !ok {
-			return nil, fmt.Errorf("Alias \"%s\" points to undefined key \"%s\"", keyName, keyConf.Alias)
+			return nil, fmt.Errorf("Alias \"%s\" points to undefined key \"%s\"", keyName, alias)
 		}
 	}
 	if keyConf.Token == "" {
